@@ -206,6 +206,15 @@ func cmdReplay(args []string) int {
 		fmt.Fprintln(os.Stderr, err)
 		return 2
 	}
+	if rf.Property == "C20" {
+		c := exec.Command(filepath.Join(verifDir, "bin", "c20.test"), "-test.run", "TestC20", "-c20.replay", args[0])
+		out, _ := c.CombinedOutput()
+		fmt.Print(string(out))
+		if strings.Contains(string(out), "VIOLATION property=C20") {
+			return 1
+		}
+		return 0
+	}
 	logOn := len(args) > 1 && args[1] == "--log"
 	res := sim.Replay(rf.Property, rf.Config, rf.Intents, logOn)
 	if logOn {
@@ -413,6 +422,9 @@ func cmdCheck(args []string) int {
 
 func writeEvidence(prop, tier string, seed int64, m *workerOut, wall float64, violations, known int) {
 	level := "exploration"
+	if prop == "C15" {
+		level = "fault_enumeration"
+	}
 	ev := map[string]interface{}{
 		"property_id": prop, "tier": tier, "seed": seed, "level": level, "wall_s": wall, "violations": violations,
 		"coverage": map[string]interface{}{
@@ -460,9 +472,144 @@ func firstSeeds(s []int64, n int) []int64 {
 	return s
 }
 
+// checkC20 fans out the connector harness (a Go test binary, because testing/synctest needs a *testing.T).
 func checkC20(tier string, seed int64, workers int, budget float64) int {
-	fmt.Fprintln(os.Stderr, "C20 is served by the connector harness (not built yet)")
-	return 2
+	t0 := time.Now()
+	bin := filepath.Join(verifDir, "bin", "c20.test")
+	if _, err := os.Stat(bin); err != nil {
+		fmt.Fprintln(os.Stderr, "c20.test is not built (run_check.sh builds it)")
+		return 2
+	}
+	work := filepath.Join(verifDir, "work", "C20-"+tier)
+	os.RemoveAll(work)
+	os.MkdirAll(work, 0o755)
+	type proc struct {
+		cmd *exec.Cmd
+		out string
+	}
+	var procs []proc
+	for i := 0; i < workers; i++ {
+		out := filepath.Join(work, fmt.Sprintf("w%d.json", i))
+		c := exec.Command(bin, "-test.run", "TestC20", "-test.timeout", "6h", "-c20.seed", strconv.FormatInt(seed, 10), "-c20.idx", strconv.Itoa(i),
+			"-c20.budget", fmt.Sprintf("%f", budget), "-c20.tier", tier, "-c20.out", out, "-c20.replaydir", filepath.Join(verifDir, "replays"))
+		c.Dir = work
+		c.Stderr = os.Stderr
+		c.Env = append(os.Environ(), "GOMAXPROCS=2")
+		if err := c.Start(); err != nil {
+			return 2
+		}
+		procs = append(procs, proc{c, out})
+	}
+	infra := false
+	for _, p := range procs {
+		if err := p.cmd.Wait(); err != nil {
+			fmt.Fprintln(os.Stderr, "C20 worker failed:", err)
+			infra = true
+		}
+	}
+	type c20res struct {
+		Histories  int            `json:"histories"`
+		Restarts   int            `json:"restarts"`
+		Commands   int            `json:"commands"`
+		Distinct   map[string]int `json:"distinct"`
+		Faults     map[string]int `json:"faults"`
+		Probes     map[string]int `json:"probes"`
+		Violations []violationOut `json:"violations"`
+		Samples    []interface{}  `json:"samples"`
+	}
+	tot := c20res{Distinct: map[string]int{}, Faults: map[string]int{}, Probes: map[string]int{}}
+	for _, p := range procs {
+		b, err := os.ReadFile(p.out)
+		if err != nil {
+			infra = true
+			continue
+		}
+		var r c20res
+		if json.Unmarshal(b, &r) != nil {
+			infra = true
+			continue
+		}
+		tot.Histories += r.Histories
+		tot.Restarts += r.Restarts
+		tot.Commands += r.Commands
+		for k, v := range r.Distinct {
+			tot.Distinct[k] += v
+		}
+		for k, v := range r.Faults {
+			tot.Faults[k] += v
+		}
+		for k, v := range r.Probes {
+			tot.Probes[k] += v
+		}
+		tot.Violations = append(tot.Violations, r.Violations...)
+		if len(tot.Samples) < 1 {
+			tot.Samples = append(tot.Samples, r.Samples...)
+		}
+	}
+	wall := time.Since(t0).Seconds()
+	kf := loadKnown()
+	var unknown []violationOut
+	seenKnown := map[string]bool{}
+	for _, v := range tot.Violations {
+		if isKnown(kf, "C20", v.Signature) {
+			seenKnown[v.Signature] = true
+			os.Remove(v.Replay)
+			continue
+		}
+		unknown = append(unknown, v)
+	}
+	for _, k := range kf.Findings {
+		if k.Property == "C20" {
+			fmt.Printf("KNOWN-FINDING: property=C20 %s [%s]\n", k.Description, k.ID)
+		}
+	}
+	if tot.Samples == nil {
+		tot.Samples = []interface{}{}
+	}
+	ev := map[string]interface{}{
+		"property_id": "C20", "tier": tier, "seed": seed, "level": "fault_enumeration", "wall_s": wall, "violations": len(unknown),
+		"coverage": map[string]interface{}{
+			"evaluations":         tot.Restarts + tot.Commands,
+			"distinct_nontrivial": len(tot.Distinct),
+			"rule": "per seeded Minter block history, EVERY cursor the connector can persist (block boundaries) x EVERY nonce the hub could have acknowledged (none, each event nonce incl. mid-block because of 10-message chunking, one beyond the chain) is one restart of the real resync code; plus lost/empty/torn/garbage status files and Minter API errors; histories above 4000 pairs are strided. distinct = distinct (cursor position, acknowledged-nonce position / file fault) classes; every restart is non-trivial (it runs the real scan). Command payloads: fuzzed against the statement's well-formedness rule.",
+			"samples":                  tot.Samples,
+			"exhaustive":               false,
+			"histories":                tot.Histories,
+			"restarts":                 tot.Restarts,
+			"command_payloads":         tot.Commands,
+			"restart_classes":          tot.Distinct,
+			"faults_fired":             tot.Faults,
+			"probes":                   tot.Probes,
+			"histories_per_hour":       float64(tot.Histories) / wall * 3600,
+			"restarts_per_hour":        float64(tot.Restarts) / wall * 3600,
+			"real_components":          []string{"minter-connector/minter.GetLatestMinterBlockAndNonce", "minter-connector/context (LoadStatus, Commit, status file on disk)", "minter-connector/command.ValidateAndComplete", "minter-go-sdk http_client.Client (above the ClientService seam)"},
+			"stub_components":          []string{"Minter node HTTP API (api_service.ClientService stub serving the model's blocks)", "connector main loop (package main, not importable): its persisted cursors are enumerated as block-boundary cursors of the canonical numbering", "hub acknowledgement (an integer)"},
+			"clock":                    "retry sleeps run inside testing/synctest bubbles (fake clock)",
+		},
+		"assumptions": []string{"the main loop persists cursors only at block boundaries (read from cmd/mhub-minter-connector/main.go relayMinterEvents)", "bridge-event classification of the model follows the statement; edit-multisig payloads are decimal integers as strconv.Atoi reads them"},
+	}
+	os.MkdirAll(filepath.Join(verifDir, "evidence"), 0o755)
+	b, _ := json.MarshalIndent(ev, "", " ")
+	os.WriteFile(filepath.Join(verifDir, "evidence", "C20.json"), b, 0o644)
+	os.RemoveAll(work)
+	seen := map[string]bool{}
+	for _, v := range unknown {
+		if seen[v.Signature] {
+			os.Remove(v.Replay)
+			continue
+		}
+		seen[v.Signature] = true
+		fmt.Printf("violation: %s: %s\n", v.Signature, v.Message)
+		fmt.Printf("VIOLATION property=C20 replay=%s\n", v.Replay)
+	}
+	fmt.Printf("C20 %s: histories=%d restarts=%d commands=%d classes=%d wall=%.1fs\n", tier, tot.Histories, tot.Restarts, tot.Commands, len(tot.Distinct), wall)
+	if len(unknown) > 0 {
+		return 1
+	}
+	if infra || tot.Restarts == 0 {
+		return 2
+	}
+	return 0
 }
 
 func cmdSelftest(args []string) int {
